@@ -435,11 +435,63 @@ func appendSafeField(p *Prog, T types.Type, fld string) (bool, string) {
 }
 
 func elementsWholeTail(p *Prog, sliceVal ssa.Value) (bool, string) {
+	return elementsWholeTailD(p, sliceVal, 0, map[ssa.Value]bool{})
+}
+
+// elementsWholeTailD: the [][]byte value was allocated by a make in the module
+// and every element stored into it (by the allocating function, or by an
+// unexported helper it is handed to or returned from) is a whole-tail value.
+func elementsWholeTailD(p *Prog, sliceVal ssa.Value, depth int, seen map[ssa.Value]bool) (bool, string) {
+	if depth > 4 {
+		return false, "slice of byte strings of unknown origin (helper chain too deep)"
+	}
+	if seen[sliceVal] {
+		return true, ""
+	}
+	seen[sliceVal] = true
 	refs := sliceVal.Referrers()
 	if refs == nil {
 		return false, "slice of byte strings of unknown origin"
 	}
-	if _, ok := sliceVal.(*ssa.MakeSlice); !ok {
+	switch v := sliceVal.(type) {
+	case *ssa.MakeSlice:
+	case *ssa.Parameter:
+		fn := v.Parent()
+		if fn == nil || !InModule(fn) || fn.Object() == nil || fn.Object().Exported() || fn.Signature.Recv() != nil && fn.Signature.Recv() == v.Object() {
+			return false, "slice of byte strings not allocated locally"
+		}
+		idx := -1
+		for i, prm := range fn.Params {
+			if prm == v {
+				idx = i
+			}
+		}
+		sites := p.callSitesOf(fn)
+		if idx < 0 || len(sites) == 0 {
+			return false, "slice of byte strings not allocated locally"
+		}
+		for _, c := range sites {
+			args := c.Common().Args
+			if idx >= len(args) {
+				return false, "slice of byte strings not allocated locally"
+			}
+			if ok, why := elementsWholeTailD(p, args[idx], depth+1, seen); !ok {
+				return false, why
+			}
+		}
+	case *ssa.Call:
+		f := v.Common().StaticCallee()
+		if f == nil || f.Blocks == nil || !InModule(f) || f.Signature.Results().Len() != 1 {
+			return false, "slice of byte strings not allocated locally"
+		}
+		for _, b := range f.Blocks {
+			if r, ok := b.Instrs[len(b.Instrs)-1].(*ssa.Return); ok && len(r.Results) == 1 {
+				if ok, why := elementsWholeTailD(p, r.Results[0], depth+1, seen); !ok {
+					return false, why
+				}
+			}
+		}
+	default:
 		return false, "slice of byte strings not allocated locally"
 	}
 	for _, r := range *refs {
